@@ -6,6 +6,15 @@ props = [json.loads(l) for l in open(os.path.join(V, "properties.jsonl"))]
 
 # property -> (level text, level note, technique, design_ref)
 CLAIMED = {
+ "C19": ("TLC (MC_C19) tags every name the generator refers to with how it is written (absolute path; method call resolved through the prelude "
+         "or a where-clause bound; the macro's own parameters; user tokens; third-party output) and resolves the references one by one against every "
+         "scope variant - nothing may be captured. Eleven programs (one per input mode / delegation kind) are rendered into each variant (clean; "
+         "each of 15 names shadowed by a local item; all shadowed; generated trait named Send / Sync; #![no_std] library), invoked by absolute path "
+         "in modules that import nothing, expanded by the real macro, compiled and run; TLC (Trace_C19) requires every variant to compile and to "
+         "give the same run-time result and the same trait availability as the clean-scope run of the same program.",
+         "217 (program, variant) points, all replayed; rustc's name resolution is the oracle; async_trait's own bare `Box` is third party; mock derivations (unimock/mockall output) are not covered",
+         "TLA+ reference/shadowing model checked by TLC + exhaustive replay in hostile scopes with TLC comparing verdicts, results and availability against the clean run",
+         "7/C19"),
  "C18": ("TLC (MC_C18) models the generator's attribute flow for every placement (fn, parameter, module fn, impl-block fn, trait method) x "
          "attribute kind (doc, lint, enabled / disabled cfg, tool attribute, inert built-in) x sync/async x deps/no_deps and checks Level 1 "
          "(Req!C18) on it. Every input is rendered with a marker attribute, expanded by the real macro and compiled; the projector locates the "
